@@ -237,6 +237,8 @@ def k_c20(ctx):
             ls = gen.gen_ledger(rng, events=0, splits=0, uncovered=0, dividends=0.05, nsec=rng.choice([1, 2]))
             oy = rng.choice([2009, 2011, 2012, 2027, 2029])
             ls = ls + [Line(datetime.date(oy, 5, 3), "OLDCO", "BUY", "10", "1", "GBP", None), Line(datetime.date(oy, 9, 1), rng.choice(["OLDCO", ls[0].tick]) if oy > 2026 else "OLDCO", "SELL", "1", "2", "GBP", None)]
+            if i % 2 == 0:      # several uncovered years: the refusal of the all-years report must name the same one in every process
+                ls = ls + [Line(datetime.date(2005, 5, 3), "ELDER", "BUY", "10", "1", "GBP", None)] + [Line(datetime.date(y, 9, 1), "ELDER", "SELL", "1", "2", "GBP", None) for y in (2005, 2006, 2007, 2008)]
             ledgers.append((ls, ledger.render(ls))); special.append((ls, ledger.render(ls)))
         # a ledger that sells many securities: whatever a tool lists about it (e.g. the tickers an error message offers) must not come out in hash order
         many = []
